@@ -9,6 +9,10 @@ From Coq Require Import ZArith.
 From V Require Import Base.Res C10.Model.
 Open Scope Z_scope.
 
+(* the root queue exists and has no parent *)
+Definition root_okb (Q : queues) : bool :=
+  match Q !! root with Some sr => bool_decide (qparent sr = None) | None => false end.
+
 (* the chain of parent links starting at [parent] reaches the root ("" or
    "root") within k links, every queue on the way existing *)
 Fixpoint reach_in (k : nat) (Q : queues) (parent : option positive) : bool :=
@@ -26,11 +30,8 @@ Fixpoint reach_in (k : nat) (Q : queues) (parent : option positive) : bool :=
     end
   end.
 
-Definition root_okb (Q : queues) : bool :=
-  match Q !! root with Some sr => bool_decide (qparent sr = None) | None => false end.
-
 Definition shape_okb (c : cfg) (Q : queues) : bool :=
-  bool_decide (is_Some (Q !! root)) &&
+  root_okb Q &&
   map_allb (fun n s => bool_decide (n = root) || reach_in (Z.to_nat (max_depth c)) Q (qparent s)) Q.
 
 Definition nonneg_l (m : rlist) : bool := map_allb (fun _ v => bool_decide (0 <= v)) m.
@@ -88,13 +89,6 @@ Definition caps_okb (Q : queues) : bool :=
 Definition tree_okb (c : cfg) (Q : queues) : bool :=
   shape_okb c Q && per_okb Q && sums_okb Q && caps_okb Q.
 
-(* requests the theorems speak about: the root queue itself is never given a parent *)
-Definition req_wfb (r : req) : bool :=
-  match r with
-  | Create n s | Update n s => negb (bool_decide (n = root)) || bool_decide (qparent s = None)
-  | _ => true
-  end.
-
 (* an admitted DELETE: not root/default, the queue exists, has no children and
    (flag on) no allocated pods *)
 Definition delete_guardb (c : cfg) (Q : queues) (r : req) : bool :=
@@ -122,7 +116,7 @@ Fixpoint replay (chk : queues -> bool) (grd : queues -> req -> bool)
 
 Definition law_with (chk : queues -> bool) (grd : queues -> req -> bool)
            (c : cfg) (Q0 : queues) (rs : list req) (vs : list Z) : bool :=
-  if tree_okb c Q0 && forallb req_wfb rs then replay chk grd Q0 rs vs else true.
+  if tree_okb c Q0 then replay chk grd Q0 rs vs else true.
 
 Definition no_guard (_ : queues) (_ : req) : bool := true.
 
@@ -139,5 +133,5 @@ Fixpoint replay_final (Q : queues) (rs : list req) (vs : list Z) : queues :=
   | _, _ => Q
   end.
 Definition law_capacity (c : cfg) (Q0 : queues) (rs : list req) (vs : list Z) (ready : Z) : bool :=
-  if tree_okb c Q0 && forallb req_wfb rs && shape_okb c (replay_final Q0 rs vs)
+  if tree_okb c Q0 && shape_okb c (replay_final Q0 rs vs)
   then ready =? 1 else true.
